@@ -95,6 +95,11 @@ func checkFloatCarrier(x float64) string {
 			return fmt.Sprintf("float32 bits %08x not recovered exactly: field %08x", math.Float32bits(f32), math.Float32bits(o.F32))
 		}
 	}
+	// a typed map, then lists of both widths, the wider type twice
+	mix := &zoo.FloatMix{Rates: zoo.RateMap{"r": x}, Ticks: []float32{f32, 0.5}, Bid: []float64{x, 2.5}, Ask: []float64{0.1, x, x}, Last: []float32{f32}}
+	if stage, rerr, _ := roundTrip(mix); rerr != nil {
+		return fmt.Sprintf("typed map followed by []float32, []float64, []float64: %s: %v", stage, rerr)
+	}
 	// every double on the wire in its shortest exact form
 	a, _, derr := refcodec.Decode(b)
 	if derr != nil {
